@@ -21,10 +21,12 @@ theorem framer_parse_frame (fuel : Nat) (rz : Nat → Option String) (h : Store)
       | none => o.ret = .none ∧ o.heap = h
       | some (f, rest) => o.ret = encTok (.frame f) ∧ o.heap = h.set "_buffer" (.bytes rest) := by
   by_cases h4 : buf.length < 4
-  · l2_eval [tbl_Framer, m_Framer_parse_frame, envF, hb, h4, parseFrame]
+  · have h4I : ((buf.length : Nat) : Int) < 4 := by omega     -- the same fact as `>=` / `<=` on ints reads it
+    l2_eval [tbl_Framer, m_Framer_parse_frame, envF, hb, h4, h4I, parseFrame]
   · obtain ⟨n, hn⟩ := fromBe4_take4 h4
+    have h4I : (4 : Int) ≤ ((buf.length : Nat) : Int) := by omega
     by_cases hl : buf.length < 4 + n <;>
-      l2_eval [tbl_Framer, m_Framer_parse_frame, envF, hb, parseFrame, h4, hn, hl, drop_take_add, encTok]
+      l2_eval [tbl_Framer, m_Framer_parse_frame, envF, hb, parseFrame, h4, h4I, hn, hl, drop_take_add, encTok]
 
 /-- `_get_expected(name, expected)` = `getExpected`: consumed / wait / `Disconnect` (after a log line) -/
 theorem framer_get_expected (fuel : Nat) (h : Store) (buf expected : Bytes) (name : String)
@@ -185,10 +187,12 @@ theorem framer_add_and_parse (fuel : Nat) (cfg : FramerCfg) (op : Bytes) (h : St
     | want_frame =>
       rw [parseTurn_frame]
       by_cases h4 : buf.length < 4
-      · fr_eval [m_Framer_parse_frame, parseFrame, h4, hst1, hbuf1, hpro1, hop1, htr1, hcsf1]
+      · have h4I : ((buf.length : Nat) : Int) < 4 := by omega
+        fr_eval [m_Framer_parse_frame, parseFrame, h4, h4I, hst1, hbuf1, hpro1, hop1, htr1, hcsf1]
       · obtain ⟨n, hn⟩ := fromBe4_take4 h4
+        have h4I : (4 : Int) ≤ ((buf.length : Nat) : Int) := by omega
         by_cases hl : buf.length < 4 + n <;>
-          fr_eval [m_Framer_parse_frame, parseFrame, h4, hn, hl, drop_take_add, hst1, hbuf1, hpro1, hop1, htr1, hcsf1]
+          fr_eval [m_Framer_parse_frame, parseFrame, h4, h4I, hn, hl, drop_take_add, hst1, hbuf1, hpro1, hop1, htr1, hcsf1]
     | want_prologue =>
       rw [parseTurn_prologue]
       by_cases e1 : cfg.inboundPrologue.isPrefixOf buf = true
